@@ -13,6 +13,14 @@ import PsVerif
 #print axioms PsVerif.tailShuffle_take
 #print axioms PsVerif.selected_spec
 #print axioms PsVerif.ranking_pipeline_spec
+-- C02
+#print axioms PsVerif.solveExact_sound
+#print axioms PsVerif.lstsqExact_sound
+#print axioms PsVerif.recon_exact
+#print axioms PsVerif.recon_exact_square
+#print axioms PsVerif.measurements_eq
+#print axioms PsVerif.more_sensors_injective
+#print axioms PsVerif.independent_rows_injective
 -- C03
 #print axioms PsVerif.qr_greedy_max
 #print axioms PsVerif.gram_state_nonneg
@@ -39,6 +47,43 @@ import PsVerif
 #print axioms PsVerif.gqr_own_class_max
 #print axioms PsVerif.gqr_inactive_eq_qr
 #print axioms PsVerif.gqr_s0_eq_ccqr_prohibitive
+-- C07
+#print axioms PsVerif.predict_in_span
+#print axioms PsVerif.predict_least_squares
+#print axioms PsVerif.predict_interpolates
+#print axioms PsVerif.predict_linear
+#print axioms PsVerif.predict_linear_minnorm
+#print axioms PsVerif.predictExact_rows
+-- C08
+#print axioms PsVerif.insertDesc_perm
+#print axioms PsVerif.insertDesc_sorted
+#print axioms PsVerif.foldl_insertDesc_perm
+#print axioms PsVerif.foldl_insertDesc_sorted
+#print axioms PsVerif.argsortDesc_perm
+#print axioms PsVerif.argsortDesc_sorted
+#print axioms PsVerif.topN_spec
+#print axioms PsVerif.topN_prefix
+#print axioms PsVerif.thresh_iff
+#print axioms PsVerif.thresh_nodup
+#print axioms PsVerif.thresh_antitone
+#print axioms PsVerif.absR_nonneg
+#print axioms PsVerif.magnitudes_nonneg_oneD
+#print axioms PsVerif.thresh_zero_all
+#print axioms PsVerif.default_threshold_sq
+#print axioms PsVerif.update_rejected_unchanged
+#print axioms PsVerif.update_count_ok_gen
+#print axioms PsVerif.update_count_ok
+#print axioms PsVerif.fit_count_ok
+-- C09
+#print axioms PsVerif.init_consistent
+#print axioms PsVerif.consistent_iff
+#print axioms PsVerif.update_consistent
+#print axioms PsVerif.update_consistent_noxy
+#print axioms PsVerif.fit_consistent
+#print axioms PsVerif.step_consistent
+#print axioms PsVerif.dispatch_consistent
+#print axioms PsVerif.zero_sensors_dummy
+#print axioms PsVerif.stale_flag_breaks_invariant
 -- C14
 #print axioms PsVerif.selected_eq_take
 #print axioms PsVerif.setN_preserves_ranking
@@ -73,3 +118,11 @@ import PsVerif
 #print axioms PsVerif.tail_set_seed_independent
 #print axioms PsVerif.same_seed_same_ranking
 #print axioms PsVerif.no_tail_seed_irrelevant
+-- C17
+#print axioms PsVerif.rel_error_identity
+#print axioms PsVerif.det_gram_nonneg
+#print axioms PsVerif.theta_eq_gather
+#print axioms PsVerif.determinantModel_nonneg
+#print axioms PsVerif.foldl_sq_zero
+#print axioms PsVerif.foldl_foldl_sq_zero
+#print axioms PsVerif.sqErr_self
